@@ -49,17 +49,33 @@ func (xmp *XMP) parser(p property) (err error) {
 func parseDate(buf []byte) (t time.Time, err error) {
 	str := string(buf)
 	// XMP Date (XMP specification part 1, 8.2.1.2): the seconds, the time and
-	// the time zone designator may be left out
-	for _, layout := range xmpDateLayouts {
-		if t, err = time.Parse(layout, str); err == nil {
-			return
+	// the time zone designator may be left out. The shape of the text selects
+	// the layouts worth trying (a rejected value must stay cheap: a packet can
+	// hold very many of them).
+	if len(str) <= 10 || str[10] != 'T' {
+		switch len(str) {
+		case 4:
+			return time.Parse("2006", str)
+		case 7:
+			return time.Parse("2006-01", str)
+		case 10:
+			return time.Parse("2006-01-02", str)
 		}
+		return t, errXMPDate
+	}
+	if len(str) >= 19 && str[16] == ':' {
+		if t, err = time.Parse("2006-01-02T15:04:05Z07:00", str); err != nil {
+			t, err = time.Parse("2006-01-02T15:04:05", str)
+		}
+		return
+	}
+	if t, err = time.Parse("2006-01-02T15:04Z07:00", str); err != nil {
+		t, err = time.Parse("2006-01-02T15:04", str)
 	}
 	return
 }
 
-var xmpDateLayouts = []string{"2006-01-02T15:04:05Z07:00", "2006-01-02T15:04:05.00", "2006-01-02T15:04:05",
-	"2006-01-02T15:04Z07:00", "2006-01-02T15:04", "2006-01-02", "2006-01", "2006"}
+var errXMPDate = fmt.Errorf("xmp: not a date")
 
 // parseGPSCoordinate parses the XMP GPSCoordinate forms "DDD,MM,SSk" and
 // "DDD,MM.mmk" (k is N, S, E or W; south and west are negative) and, for
